@@ -12,7 +12,7 @@ import (
 )
 
 func TestMain(m *testing.M) {
-	vh.Rule("exhaustive: every sql.IsolationLevel -8..64 (x50 calls), every ASEIsolationLevel -4..8 (x2000 calls of ToGo and String), every supported non-default level there-and-back x2000; rapid: random call histories of FromGo/ToGo/String (2..40 calls) checked for answer stability; 5+ separate processes whose recorded answers must agree. Non-trivial: a level whose ASE target is shared by several sql levels (the only place iteration order can matter), a supported non-default round trip, or a history that asks the same question twice; distinct by level / by call sequence")
+	vh.Rule("exhaustive: every sql.IsolationLevel -8..64 (x50 calls), every ASEIsolationLevel -4..8 (x2000 calls of ToGo and String), every supported non-default level there-and-back x2000; every ASE level value -70000..70000 plus values around 2^16..2^62 and the extremes (the directions must be consistent: a value that translates back to a supported non-default level is the ASE level that level translates to); rapid: random call histories of FromGo/ToGo/String (2..40 calls) checked for answer stability; 5+ separate processes whose recorded answers must agree. Non-trivial: a level whose ASE target is shared by several sql levels (the only place iteration order can matter), a supported non-default round trip, or a history that asks the same question twice; distinct by level / by call sequence")
 	vh.Assume("the exported ASELevel* constants are the four ASE levels; the oracle table is written from the property text")
 	// answers given before anything else in this process has used the package: the result must
 	// not depend on which function happened to be called first
@@ -265,4 +265,77 @@ func TestCallHistories(t *testing.T) {
 		return histCase{Ops: ops}
 	}
 	vh.Check(t, "TestCallHistories", vh.N(3000, 100000), gen, runHistory)
+}
+
+// ---- every ASE level VALUE (the type is an int; the property quantifies over "every ASE
+// level value"): the two directions are consistent. Whatever a value translates back to, if
+// that is a supported non-default sql level, translating that level forward gives the value
+// again (so only the four ASE levels can translate back to the four supported levels), and
+// printing names a level only for a value that translates.
+
+type valueCase struct {
+	ASE int `json:"ase_level_value"`
+}
+
+func runValue(c valueCase) *vh.Failure {
+	a := dblib.ASEIsolationLevel(c.ASE)
+	l := a.ToGo()
+	if l2 := a.ToGo(); l2 != l {
+		return vh.Failf("C20/nondeterministic-reverse", "ASE level value %d: ToGo gave %d and then %d", c.ASE, l, l2)
+	}
+	s := a.String()
+	if s2 := a.String(); s2 != s {
+		return vh.Failf("C20/nondeterministic-reverse", "ASE level value %d: String gave %q and then %q", c.ASE, s, s2)
+	}
+	if want, ok := supported[l]; ok && l != sql.LevelDefault {
+		if a != want {
+			return vh.Failf("C20/directions-inconsistent", "ASE level value %d translates back to %v, but %v translates to ASE level %d", c.ASE, l, l, int(want))
+		}
+		vh.NonTrivial(fmt.Sprint("value", c.ASE))
+	}
+	// two values that print the same translate back the same
+	for _, x := range []dblib.ASEIsolationLevel{dblib.ASELevelReadUncommitted, dblib.ASELevelReadCommitted, dblib.ASELevelRepeatableRead, dblib.ASELevelSerializableRead} {
+		if x != a && x.String() == s && x.ToGo() != l {
+			return vh.Failf("C20/directions-inconsistent", "ASE level values %d and %d both print as %q but translate back to %v and %v", c.ASE, int(x), s, l, x.ToGo())
+		}
+		if x != a && x.String() == s && x.ToGo() == l && l != sql.LevelDefault {
+			return vh.Failf("C20/directions-inconsistent", "ASE level value %d prints and translates like the ASE level %d (%q)", c.ASE, int(x), s)
+		}
+	}
+	return nil
+}
+
+func TestEveryLevelValue(t *testing.T) {
+	e := vh.NewEnum(t, "TestEveryLevelValue", runValue)
+	if e.Skip() {
+		return
+	}
+	n := 0
+	do := func(a int) bool {
+		n++
+		if !vh.Mine(n) {
+			return true
+		}
+		return e.Do(valueCase{ASE: a})
+	}
+	for a := -70000; a <= 70000; a++ {
+		if !do(a) {
+			return
+		}
+	}
+	// values whose low 8/16/32 bits are an ASE level, and the extremes
+	for _, base := range []int{1 << 16, 1 << 24, 1 << 31, 1 << 32, 1 << 40, 1 << 62, -(1 << 16), -(1 << 31), -(1 << 32), -(1 << 62)} {
+		for d := -5; d <= 5; d++ {
+			if !do(base + d) {
+				return
+			}
+		}
+	}
+	for _, a := range []int{int(^uint(0) >> 1), -int(^uint(0)>>1) - 1} {
+		if !do(a) {
+			return
+		}
+	}
+	vh.Sample("level-value", valueCase{ASE: 257})
+	e.Done("ASE level values -70000..70000, 2^k+d for k in 16,24,31,32,40,62 and d in -5..5, MinInt, MaxInt")
 }
